@@ -262,6 +262,12 @@ func RunC06(c *Ctx) {
 	workload.W7Adjacent(workload.W7AdjAligns, workload.W7AdjTails, sink)
 	workload.W7LongPositions(sink)
 	workload.W5([]int{3000, 70000}, sink) // long tokens: size thresholds of scratch handling
+	workload.W2T(false, func(cs *h.Case) {
+		if len(cs.Input) > 0 && cs.Input[0] == '"' {
+			sink(cs)
+		}
+	})
+	workload.W7Runs(sink)
 	workload.W1Len(func(cs *h.Case) {
 		if cs.P[2] == 0 {
 			sink(cs)
